@@ -3,18 +3,20 @@
 # quick checks (or "--thorough ID"), then ALWAYS revert /repo. Prints one summary line per check.
 set -u
 PATCH="$1"; shift
-cd /repo || exit 2
+REPO="${O2O_REPO:-/repo}"
+VERIF="$(cd "$(dirname "$0")/.." && pwd)"
+cd "$REPO" || exit 2
 if [ -n "$(git status --porcelain)" ]; then echo "repo not clean"; exit 2; fi
 git apply "$PATCH" || { echo "patch does not apply"; exit 2; }
-trap 'git -C /repo checkout -- . ; git -C /repo clean -fdq -- o2o-impl/tests o2o-tests/tests 2>/dev/null' EXIT
+trap 'git -C "$REPO" checkout -- . ; git -C "$REPO" clean -fdq -- o2o-impl/tests o2o-tests/tests 2>/dev/null' EXIT
 echo "== suite with change: $(cargo nextest run --workspace --no-fail-fast --offline 2>&1 | grep -E 'Summary|error:' | tail -1)"
 TIER=quick
 for id in "$@"; do
   if [ "$id" = "--thorough" ]; then TIER=thorough; continue; fi
   # the evidence file belongs to the unchanged tree: keep it out of the seeded run's way
-  cp /verif/evidence/$id.json /tmp/.evidence-$id.json.keep 2>/dev/null
-  out=$(cd /verif && ./check "$id" --tier $TIER 2>&1); rc=$?
-  mv /tmp/.evidence-$id.json.keep /verif/evidence/$id.json 2>/dev/null
+  cp "$VERIF/evidence/$id.json" "/tmp/.evidence-$id-$$.json.keep" 2>/dev/null
+  out=$(cd "$VERIF" && ./check "$id" --tier $TIER 2>&1); rc=$?
+  mv "/tmp/.evidence-$id-$$.json.keep" "$VERIF/evidence/$id.json" 2>/dev/null
   nv=$(echo "$out" | grep -c '^VIOLATION')
   echo "== $id [$TIER] exit=$rc violation_lines=$nv :: $(echo "$out" | grep -E "^$id tier" | tail -1 | sed 's/.*known_hits/known_hits/')"
   echo "$out" | grep -A1 '^VIOLATION' | grep 'kind=' | sort | uniq -c | sort -rn | head -4
